@@ -3,8 +3,11 @@ package harness
 import (
 	"fmt"
 	"net"
+	"runtime"
+	"strings"
 	"syscall"
 	"testing"
+	"time"
 
 	"verif/harness/cfggen"
 	"verif/harness/ev"
@@ -427,3 +430,181 @@ type tempErr struct{}
 func (tempErr) Error() string   { return "too many open files" }
 func (tempErr) Timeout() bool   { return false }
 func (tempErr) Temporary() bool { return true }
+
+// TestC14EnumStalledReaders: more clients than the machine has processors log in and never read their
+// replies (every Write to them blocks).  A well-behaved client that logs in afterwards must be served.  If
+// it is not, the verdict is taken from the goroutines: its connection goroutine is parked on something
+// inside the server (a channel, a lock) and stays there, while everything the harness owns is idle.
+func TestC14EnumStalledReaders(t *testing.T) {
+	ev.Eval()
+	var w cfggen.World
+	w.Keychain = map[string]string{}
+	w.Cfg.Secrets = []cfggen.Secret{cfggen.NewSecret(cfggen.ScopeA, cfggen.KeyA, cfggen.PrefixA)}
+	w.Cfg.Users = []cfggen.User{
+		{Name: "alice", Scopes: []string{cfggen.ScopeA}, Authenticator: cfggen.BcryptAuth("pw-alpha"), Accounter: cfggen.FileAccounter(), Commands: []cfggen.Command{{Name: "show", Action: cfggen.ActionPermit}}},
+		{Name: "bob", Scopes: []string{cfggen.ScopeA}, Authenticator: cfggen.BcryptAuth("pw-bravo")},
+	}
+	stalled := runtime.GOMAXPROCS(0) + 3
+	cse := map[string]interface{}{"world": w, "stalled_readers": stalled}
+	journal("C14", cse)
+	env, err := startRef(w.Cfg, refOpts{recover: true, quiet: true})
+	if err != nil {
+		t.Fatalf("HARNESS-BUG: %v", err)
+	}
+	key := []byte(cfggen.KeyA)
+	var held []*connDriver
+	for i := 0; i < stalled; i++ {
+		d, err := env.dial(cfggen.AddrIn(cfggen.ScopeA, byte(20+i%200)).IP(), 12000+i)
+		if err != nil {
+			t.Fatalf("%v", err)
+		}
+		d.c.BlockWrites(true)
+		// one login, one authorization and one accounting record each, all in one write
+		login := model.Frame(key, model.Header{Version: 0xc1, Type: 1, Seq: 1, Session: uint32(100 + i)}, model.AuthenStart{Action: 1, Priv: 1, AType: 2, Service: 1, User: b("bob"), Port: b("tty0"), RemAddr: b("r"), Data: b("pw-bravo")}.Encode())
+		d.c.Feed(login)
+		held = append(held, d)
+	}
+	// give the stalled connections' handlers time to reach their (blocked) writes
+	for _, d := range held {
+		for k := 0; k < 500 && d.c.Pending() > 0; k++ {
+			time.Sleep(2 * time.Millisecond)
+		}
+	}
+	time.Sleep(300 * time.Millisecond)
+	probe, err := env.dial(cfggen.AddrIn(cfggen.ScopeA, 250).IP(), 13000)
+	if err != nil {
+		t.Fatalf("%v", err)
+	}
+	probe.c.Feed(model.Frame(key, model.Header{Version: 0xc1, Type: 1, Seq: 1, Session: 9999}, model.AuthenStart{Action: 1, Priv: 1, AType: 2, Service: 1, User: b("alice"), Port: b("tty0"), RemAddr: b("r"), Data: b("pw-alpha")}.Encode()))
+	answered := false
+	for k := 0; k < 1500; k++ { // up to 3 s; a login at work factor 4 takes a millisecond
+		if out, _ := probe.c.Written(); len(out) > 0 {
+			answered = true
+			break
+		}
+		time.Sleep(2 * time.Millisecond)
+	}
+	if !answered {
+		if parked := parkedConnectionGoroutines(); parked != "" {
+			for _, d := range held {
+				d.c.BlockWrites(false)
+			}
+			_ = env.stop()
+			violation(t, "C14", "availability", "C14:server-stopped-serving", cse, "%d clients logged in and do not read their replies; the login of a well-behaved client that came afterwards is not answered, and connection goroutines are parked inside the server, not on anything the harness owns:\n%s", stalled, parked)
+		}
+		t.Fatalf("HARNESS-BUG/INCONCLUSIVE: the probe login was not answered within 3 s and no connection goroutine is parked inside the server")
+	}
+	for _, d := range held {
+		d.c.BlockWrites(false)
+	}
+	if e := env.stop(); e != nil {
+		t.Fatalf("%v", e)
+	}
+	ev.Class("clients-that-do-not-read-their-replies")
+	ev.NonTrivial("stalled-readers", cse)
+}
+
+// parkedConnectionGoroutines lists connection goroutines of the server (Server.handle on their stack) that
+// are parked on a channel or lock operation outside the harness' transport and stay there for a second.
+func parkedConnectionGoroutines() string {
+	sample := func() map[string]string {
+		buf := make([]byte, 4<<20)
+		buf = buf[:runtime.Stack(buf, true)]
+		out := map[string]string{}
+		for _, g := range strings.Split(string(buf), "\n\n") {
+			nl := strings.IndexByte(g, '\n')
+			if nl < 0 || !strings.Contains(g, "tacquito.(*Server).handle") {
+				continue
+			}
+			head := g[:nl]
+			if !(strings.Contains(head, "chan send") || strings.Contains(head, "chan receive") || strings.Contains(head, "select") || strings.Contains(head, "semacquire") || strings.Contains(head, "Lock")) {
+				continue
+			}
+			if strings.Contains(g, "harness/transport.(*Conn)") || strings.Contains(g, "harness/transport.(*Listener)") {
+				continue // waiting for the harness (a blocked write, a read)
+			}
+			var fs []string
+			for _, ln := range strings.Split(g, "\n") {
+				if strings.HasPrefix(ln, "github.com/facebookincubator/tacquito") {
+					if i := strings.LastIndex(ln, "("); i > 0 {
+						ln = ln[:i]
+					}
+					fs = append(fs, ln)
+					if len(fs) == 3 {
+						break
+					}
+				}
+			}
+			if id := strings.Fields(head); len(id) >= 2 {
+				out[id[1]] = head[strings.Index(head, "["):] + " " + strings.Join(fs, " < ")
+			}
+		}
+		return out
+	}
+	a := sample()
+	if len(a) == 0 {
+		return ""
+	}
+	time.Sleep(time.Second)
+	b := sample()
+	seen := map[string]int{}
+	for id, f := range a {
+		if b[id] == f {
+			seen[f[strings.Index(f, "]")+1:]]++
+		}
+	}
+	var keep []string
+	for f, n := range seen {
+		keep = append(keep, fmt.Sprintf(" %d goroutine(s) in%s", n, f))
+	}
+	sortStrings(keep)
+	return strings.Join(keep, "\n")
+}
+
+// TestC14EnumAttributeEdges: accounting records (start, stop, update) of a user with an accounter whose
+// standard numeric attributes take every edge value of the pool, one attribute at a time and the stop
+// record's counters together; and authorization requests carrying the same.  Deterministic.
+func TestC14EnumAttributeEdges(t *testing.T) {
+	var w cfggen.World
+	w.Keychain = map[string]string{}
+	w.Cfg.Secrets = []cfggen.Secret{cfggen.NewSecret(cfggen.ScopeA, cfggen.KeyA, cfggen.PrefixA)}
+	w.Cfg.Users = []cfggen.User{
+		{Name: "alice", Scopes: []string{cfggen.ScopeA}, Authenticator: cfggen.BcryptAuth("pw-alpha"), Accounter: cfggen.FileAccounter(),
+			Commands: []cfggen.Command{{Name: "show", Action: cfggen.ActionPermit}}, Services: []cfggen.Service{{Name: "shell", SetValues: []cfggen.Value{{Name: "priv-lvl", Values: []string{"15"}}}}}},
+		{Name: ctlUser, Scopes: []string{cfggen.ScopeA, cfggen.ScopeB}, Authenticator: cfggen.BcryptAuth(ctlPassword)},
+	}
+	key := []byte(cfggen.KeyA)
+	numeric := []string{"task_id", "start_time", "stop_time", "elapsed_time", "bytes", "bytes_in", "bytes_out", "paks", "paks_in", "paks_out", "timeout", "idletime", "priv-lvl"}
+	sess := uint32(1)
+	var conns []c14Conn
+	add := func(flags byte, args []model.B) {
+		var cc c14Conn
+		cc.Scope, cc.EOF = cfggen.ScopeA, true
+		sess++
+		cc.Chunks = append(cc.Chunks, c14Chunk{Note: "acct-attr-edge", Wire: model.Frame(key, model.Header{Version: 0xc0, Type: 3, Seq: 1, Session: sess},
+			model.AcctRequest{Flags: flags, Method: 6, Priv: 1, AType: 1, Service: 1, User: b("alice"), Port: b("tty0"), RemAddr: b("r"), Args: args}.Encode())})
+		sess++
+		cc.Chunks = append(cc.Chunks, c14Chunk{Note: "author-attr-edge", Wire: model.Frame(key, model.Header{Version: 0xc0, Type: 2, Seq: 1, Session: sess},
+			model.AuthorRequest{Method: 6, Priv: 1, AType: 1, Service: 1, User: b("alice"), Port: b("tty0"), RemAddr: b("r"), Args: append([]model.B{b("service=shell"), b("cmd=")}, args...)}.Encode())})
+		conns = append(conns, cc)
+	}
+	for _, v := range rfcAttrValues {
+		for _, n := range numeric {
+			for _, fl := range []byte{2, 4, 8} {
+				add(fl, []model.B{b("task_id=7"), model.B(n + "=" + v)})
+			}
+		}
+		// a stop record with all its counters at this value, and with this elapsed time next to real counters
+		add(4, []model.B{b("task_id=7"), model.B("elapsed_time=" + v), model.B("bytes_in=" + v), model.B("bytes_out=" + v), model.B("paks_in=" + v), model.B("paks_out=" + v)})
+		add(4, []model.B{b("task_id=7"), model.B("elapsed_time=" + v), b("bytes_in=1500"), b("bytes_out=900"), b("bytes=2400"), b("paks_in=3"), b("paks_out=2")})
+	}
+	for start := 0; start < len(conns); start += 60 {
+		end := start + 60
+		if end > len(conns) {
+			end = len(conns)
+		}
+		c := c14Case{World: w, Format: "yaml", Conns: conns[start:end]}
+		runC14(t, c)
+	}
+	ev.Class("standard-attributes-at-every-edge-value")
+}
